@@ -701,6 +701,15 @@ func (e *Exec) callFn(st *State, fn *ssa.Function, args []Value, env []Value, de
 		fr := work[len(work)-1]
 		work = work[:len(work)-1]
 		done, more := e.runFrame(fr)
+		if depth == 0 && e.inInit == false && strings.HasPrefix(fn.Name(), "VH_") {
+			// finished paths of the harness entry point: their heaps are not needed any more (obligations carry their own
+			// path conditions); keeping them made long case splits (C16, three operations) run out of memory
+			for i := range done {
+				if (done[i].Kind == OutReturn || done[i].Kind == OutPruned) && done[i].St != nil {
+					done[i].St = &State{PC: done[i].St.PC, SplitTag: done[i].St.SplitTag}
+				}
+			}
+		}
 		outs = append(outs, done...)
 		work = append(work, more...)
 		if len(outs)+len(work) > 20000 {
@@ -712,7 +721,7 @@ func (e *Exec) callFn(st *State, fn *ssa.Function, args []Value, env []Value, de
 			outs[i].Why += "\n      via " + fn.String()
 		}
 	}
-	if e.Merge && len(outs) > 1 && e.mergeAllowed(fn) {
+	if e.Merge && len(outs) > 1 && e.mergeAllowed(fn) && !(depth == 0 && strings.HasPrefix(fn.Name(), "VH_")) {
 		outs = e.mergeOutcomes(basePCLen, outs)
 	}
 	return outs
